@@ -8,7 +8,7 @@
       cell: `(CELL` ( `(CELLTYPE` _NOB `)` | `(INSTANCE` ID? `)` | `(TIMINGCHECK` _ignore* `)` | delay )* `)`
       delay: `(DELAY` `(ABSOLUTE` (interconnect | iopath)* `)` `)`
       interconnect: `(INTERCONNECT` ID ID triple* `)`       iopath: `(IOPATH` ID_OR_EDGE ID_OR_EDGE triple* `)`
-      NAME: /[^DQ]+/     ID_OR_EDGE: ( /[^() ]+/ | `(` /[^)]+/ `)` )     ID: ( /[^DQ() ]+/ | DQ /[^DQ]+/ DQ )
+      NAME: /[^DQ]+/     ID_OR_EDGE: ( /[^()\s]+/ | `(` /[^)]+/ `)` )     ID: ( /[^DQ()\s]+/ | DQ /[^DQ]+/ DQ )
       triple: `(` ( /[-.0-9]*:/ /[-.0-9]*:/ /[-.0-9]*\)/ | `)` )
       _ignore: `(` _NOB? _ignore* `)` _NOB?       _NOB: /[^()]+/       COMMENT: `//` /[^\n]*/
       %ignore ( /\r?\n/ | COMMENT )+              %ignore /[\t\f ]+/
@@ -451,9 +451,9 @@ Definition starts_ign (s : string) : bool :=
       end
   end.
 Definition wf_name (s : string) : bool := nonempty s && sall not_quote s && negb (starts_ign s).
-(* ID / ID_OR_EDGE as lark returns them when written after a blank: the quoted / parenthesised form (a non-empty body
-   without the closing character, then the closing character), or the plain form, which does not begin with a tab or form
-   feed (IGNORE_1 would take it) *)
+(* ID / ID_OR_EDGE as lark returns them: the quoted / parenthesised form (a non-empty body without the closing character, then
+   the closing character), or the plain form (the conjunct [negb (is_b1 c)] dates from before fix d9c2c16 and is now implied by
+   [id_char] / [ide_char], which exclude every white-space character) *)
 Definition wf_wrapped (inner : ascii -> bool) (r : string) : bool :=
   match span inner r with (String _ _, String _ EmptyString) => true | _ => false end.
 Definition wf_id (s : string) : bool :=
@@ -499,11 +499,32 @@ Definition ign_text (i : ign) : string :=
   | IgComment b => "//" ++ b ++ nl1
   end.
 Fixpoint sep_text (l : sep) : string := match l with [] => "" | i :: r => ign_text i ++ sep_text r end.
-(* in front of a name: a blank, then blanks / tabs / form feeds only (anything else would become part of the name) *)
+(* In front of a name (a scanner state that accepts ID / ID_OR_EDGE; the name is tried first at every position): any ignored text in which
+   every comment directly follows a line break or another comment (there IGNORE_0 is running and takes it; anywhere else -- first, or directly
+   after a blank / tab / form feed -- the `//` is lexed as a NAME).  [cm_ok nl s]: [nl] = IGNORE_0 is running; [ends0 nl s]: it is still
+   running at the end of [s] -- then a following `//` is one more comment, so a name written there must not begin with `//` ([bef_ok]). *)
 Definition b1_only (i : ign) : bool := match i with IgSpace | IgTab | IgFf => true | _ => false end.
-Definition idsep_ok (s : sep) : bool := match s with IgSpace :: r => forallb b1_only r | _ => false end.
-(* after a name: nothing (a parenthesis follows), or ignored text that begins with a blank *)
-Definition aftsep_ok (s : sep) : bool := match s with [] => true | IgSpace :: r => sep_ok r | _ => false end.
+Definition ign0 (i : ign) : bool := match i with IgNl | IgCrNl | IgComment _ => true | _ => false end.        (* a piece of IGNORE_0 *)
+Fixpoint cm_ok (nl : bool) (s : sep) : bool :=
+  match s with
+  | [] => true
+  | IgComment _ :: r => nl && cm_ok true r
+  | i :: r => cm_ok (ign0 i) r
+  end.
+Fixpoint ends0 (nl : bool) (s : sep) : bool := match s with [] => nl | i :: r => ends0 (ign0 i) r end.
+Definition slash2 (s : string) : bool :=
+  match s with String c (String c2 _) => Ascii.eqb c c_slash && Ascii.eqb c2 c_slash | _ => false end.
+Definition idsep_ok (s : sep) : bool := sep_ok s && cm_ok false s.
+Definition bef_ok (s : sep) (n : string) : bool := idsep_ok s && negb (ends0 false s && slash2 n).
+(* after a plain name: nothing (a parenthesis follows), or any ignored text that does not begin with a comment (a `//` directly after a
+   name is part of the name); after the quoted / parenthesised form ([opens]) any ignored text *)
+Definition aftsep_ok (s : sep) : bool := sep_ok s && match s with IgComment _ :: _ => false | _ => true end.
+Definition opens (o : ascii) (n : string) : bool := match n with String c _ => Ascii.eqb c o | EmptyString => false end.
+Definition open_of (io : bool) : ascii := if io then c_lpar else c_quote.
+Definition aft_ok (o : ascii) (n : string) (s : sep) : bool := sep_ok s && (opens o n || aftsep_ok s).
+(* between two names: non-empty ignored text, or one of the two is in the quoted / parenthesised form (`"a""b c"`, `(posedge CK)Q`, `A(negedge B)`) *)
+Definition touch_ok (o : ascii) (a : string) (s : sep) (b : string) : bool :=
+  match s with [] => opens o a || opens o b | _ => true end.
 
 (* items, each preceded by ignored text *)
 Fixpoint items_text {X} (f : X -> string) (l : list (sep * X)) : string :=
@@ -530,8 +551,8 @@ Definition centry_text (e : centry) : string :=
   (if io then "(IOPATH" else "(INTERCONNECT") ++ sep_text s1 ++ a ++ sep_text s2 ++ b ++ items_text ctriple_text ts ++ sep_text sf ++ ")".
 Definition centry_ok (e : centry) : bool :=
   let 'CE io s1 a s2 b ts sf := e in
-  idsep_ok s1 && idsep_ok s2 && (if io then wf_ide a && wf_ide b else wf_id a && wf_id b) &&
-  items_ok ctriple_ok ts && sep_ok sf && aftsep_ok (first_sep ts sf).
+  bef_ok s1 a && bef_ok s2 b && touch_ok (open_of io) a s2 b && (if io then wf_ide a && wf_ide b else wf_id a && wf_id b) &&
+  items_ok ctriple_ok ts && sep_ok sf && aft_ok (open_of io) b (first_sep ts sf).
 Definition centry_abs (e : centry) : xentry :=
   let 'CE io _ a _ b ts _ := e in XEntry io a b (map (fun p => ctriple_abs (snd p)) ts).
 
@@ -579,8 +600,8 @@ Definition ccitem_text (c : ccitem) : string :=
 Definition ccitem_ok (c : ccitem) : bool :=
   match c with
   | CCType w => nob_ok true w
-  | CCInst0 s => match s with [] => true | _ => idsep_ok s end
-  | CCInst s1 n s2 => idsep_ok s1 && wf_id n && aftsep_ok s2
+  | CCInst0 s => idsep_ok s
+  | CCInst s1 n s2 => bef_ok s1 n && wf_id n && aft_ok c_quote n s2
   | CCTiming s pay => sep_ok s && pay_ok pay
   | CCDelay s1 es sf s3 => sep_ok s1 && items_ok centry_ok es && sep_ok sf && sep_ok s3
   end.
@@ -690,6 +711,13 @@ Definition sdftext_case (text : string) (got : option (list xsarg)) : bool :=
   oeqb (leqb xsarg_eqb) (parse_sdf text) got.
 (* a tree the real parser produced is well-formed, prints to [text] and (checked on the Python side) lark reads that back *)
 Definition sdfprint_case (t : list xsarg) (text : string) : bool := wf_tree t && String.eqb (print_sdf t) text.
+(* a structured rendering (harness/sdf_text.py gen_cfile): [text] is the text of the value [f]; [ok] says whether it was generated inside the
+   conditions of the theorems ([cfile_ok]) or with ONE defect next to a name (misplaced comment, comment directly after a plain name, two
+   plain names touching, a `//` name after a line break); [got] is what lark did with the text.  parse_sdf agrees with lark, and lark returns
+   the content of the value exactly when the conditions hold *)
+Definition cfile_case (f : cfile) (text : string) (ok : bool) (got : option (list xsarg)) : bool :=
+  String.eqb (cfile_text f) text && Bool.eqb (cfile_ok f) ok && oeqb (leqb xsarg_eqb) (parse_sdf text) got &&
+  Bool.eqb (oeqb (leqb xsarg_eqb) (Some (cfile_abs f)) got) ok.
 (* float(): [valid] = it does not raise; [v8] = 8 * value when that is an integer and the text has at most 15 digits *)
 Definition dec_case (s : string) (valid : bool) (v8 : option Z) : bool :=
   Bool.eqb (dec_valid s) valid && oeqb Z.eqb (dec8 s) v8.
